@@ -2677,8 +2677,7 @@ fn slice_decoders(env: &Env, src: &mut Src<'_>) -> CaseResult {
 /// bit array as 32-bit Galois-field words (what the malicious shuffle hashes): `try_from(u128)`
 /// accepts exactly the integers of at most BITS bits (its documentation) and yields the value
 /// with those bits, `truncate_from` keeps the low BITS bits, `try_from(Vec<Boolean>)` accepts
-/// exactly BITS items, and the words of `Vec<Gf32Bit>::try_from(ba)` concatenate to the
-/// zero-extended encoding of the array.
+/// exactly BITS items, and `Vec<Gf32Bit>::try_from(ba)` is lossless (distinct arrays, distinct words).
 fn conversions(env: &Env, src: &mut Src<'_>) -> CaseResult {
     fn enc<B: Serializable>(b: &B) -> Vec<u8> {
         let mut g = GenericArray::<u8, B::Size>::default();
@@ -2706,7 +2705,7 @@ fn conversions(env: &Env, src: &mut Src<'_>) -> CaseResult {
             _ => (r, "random"),
         }
     }
-    fn small<B>(env: &Env, name: &'static str, src: &mut Src<'_>) -> Result<(&'static str, &'static str, u64), CaseErr>
+    fn small<B>(env: &Env, name: &'static str, src: &mut Src<'_>) -> Result<(&'static str, &'static str, &'static str, u64), CaseErr>
     where
         B: BooleanArray + Serializable + U128Conversions + TryFrom<u128> + TryFrom<Vec<Boolean>> + TryInto<Vec<Gf32Bit>> + PartialEq + std::fmt::Debug + Copy,
     {
@@ -2768,29 +2767,34 @@ fn conversions(env: &Env, src: &mut Src<'_>) -> CaseResult {
                 }
             }
         }
-        // re-layout as 32-bit words of the value with the low bits of v
+        // re-layout as 32-bit words of the value with the low bits of v. Only losslessness is
+        // demanded (another bit flipped => other words); whether the words are laid out like the
+        // wire encoding is recorded as a label.
         let b = B::truncate_from(v);
-        let words: Vec<Gf32Bit> = match catch(|| <B as TryInto<Vec<Gf32Bit>>>::try_into(b)) {
-            Ok(Ok(w)) => w,
-            Ok(Err(_)) => return Err(violation(format!("gf32-words-error:{name}"), format!("Vec<Gf32Bit>::try_from({name}) failed for {b:?}"), cj)),
-            Err((loc, m)) => return Err(violation(format!("conversion-panics:gf32-words:{name}"), format!("Vec<Gf32Bit>::try_from({name}) panicked at {loc}: {m}"), cj)),
+        let words_of = |x: B| -> Result<Vec<u8>, CaseErr> {
+            match catch(|| <B as TryInto<Vec<Gf32Bit>>>::try_into(x)) {
+                Ok(Ok(w)) => Ok(w.iter().flat_map(|w| enc(w)).collect()),
+                Ok(Err(_)) => Err(violation(format!("gf32-words-error:{name}"), format!("Vec<Gf32Bit>::try_from({name}) failed for {x:?}"), cj.clone())),
+                Err((loc, m)) => Err(violation(format!("conversion-panics:gf32-words:{name}"), format!("Vec<Gf32Bit>::try_from({name}) panicked at {loc}: {m}"), cj.clone())),
+            }
         };
-        let mut cat: Vec<u8> = words.iter().flat_map(|w| enc(w)).collect();
+        let cat = words_of(b)?;
+        let flip = src.idx(bits);
+        let mut b2 = b;
+        b2.set(flip, !b.get(flip).unwrap());
+        let cat2 = words_of(b2)?;
+        if cat == cat2 {
+            return Err(violation(format!("gf32-words-lossy:{name}"), format!("{b:?} and the array with bit {flip} flipped are converted to the same 32-bit words {cat:?}"), cj));
+        }
         let mut want = enc(&b);
         want.resize(want.len().div_ceil(4) * 4, 0);
-        // a lossless re-layout: the words carry exactly the encoding (zero-extended to whole words)
-        if cat.len() < want.len() {
-            cat.resize(want.len(), 0);
-        }
-        if cat != want {
-            return Err(violation(format!("gf32-words-differ:{name}"), format!("the 32-bit words of {b:?} concatenate to {cat:?}, its encoding (zero-extended) is {want:?}"), cj));
-        }
-        Ok((what, cls, digest(&(v, what))))
+        let layout = if cat == want { "gf32-words:encoding-layout" } else { "gf32-words:other-layout" };
+        Ok((what, cls, layout, digest(&(v, what, flip))))
     }
     const NAMES: [&str; 12] = ["BA3", "BA4", "BA5", "BA6", "BA7", "BA8", "BA16", "BA20", "BA32", "BA64", "BA96", "BA112"];
     let t = src.idx(12);
     let n = NAMES[t];
-    let (what, cls, dg) = match t {
+    let (what, cls, layout, dg) = match t {
         0 => small::<BA3>(env, n, src),
         1 => small::<BA4>(env, n, src),
         2 => small::<BA5>(env, n, src),
@@ -2805,7 +2809,7 @@ fn conversions(env: &Env, src: &mut Src<'_>) -> CaseResult {
         _ => small::<BA112>(env, n, src),
     }?;
     Ok(CaseOk::new(cls != "zero", &(t, dg), json!({"type": n, "conversion": what, "integer-class": cls}))
-        .label(format!("type:{n}")).label(format!("conversion:{what}")).label(format!("integer:{cls}")))
+        .label(format!("type:{n}")).label(format!("conversion:{what}")).label(format!("integer:{cls}")).label(layout))
 }
 
 pub fn subs(_env: &Env) -> Vec<Sub> {
@@ -2824,7 +2828,7 @@ pub fn subs(_env: &Env) -> Vec<Sub> {
         Sub::random("slice_decoders", 16, 60_000, 2_000_000, slice_decoders,
             "the second byte-string decoder of the Galois-field types, TryFrom<&[u8]>, for Gf2/3/8/9/20/32/40 over slices of every length 0..=Size+1 filled with {zero, ones, random, one bit / any value in the last byte, only the last byte}: never panics; the encoding of an accepted value is accepted by deserialize and returns that value; a slice of the full encoding length is accepted only if deserialize accepts the same bytes as the same value (rejection is always allowed); non-trivial = non-empty slice"),
         Sub::random("conversions", 16, 60_000, 2_000_000, conversions,
-            "BA3..BA112: try_from(u128) accepts exactly the integers of at most BITS bits and, like truncate_from, yields the value whose encoding is the little-endian low BITS bits (integers from {0, max, max+1, max+2, u128::MAX, single bit, random}); try_from(Vec<Boolean>) accepts exactly BITS items; Vec<Gf32Bit>::try_from(array) (the re-layout hashed by the malicious shuffle) concatenates to the zero-extended encoding of the array; no panic; non-trivial = non-zero integer"),
+            "BA3..BA112: try_from(u128) accepts exactly the integers of at most BITS bits and, like truncate_from, yields the value whose encoding is the little-endian low BITS bits (integers from {0, max, max+1, max+2, u128::MAX, single bit, random}); try_from(Vec<Boolean>) accepts exactly BITS items; Vec<Gf32Bit>::try_from(array) (the re-layout hashed by the malicious shuffle) is lossless: flipping any one bit of the array changes the words (whether the words follow the wire layout is a label); no panic; non-trivial = non-zero integer"),
         Sub::random("roundtrip", 200, 800_000, 15_000_000, roundtrip,
             "every type of the table: a value built through the public constructors (truncate_from of boundary-biased integers, bit-by-bit collection, Scalar/basepoint multiples, hashing, FromRandom, share and array constructors) encodes to the reference bytes (little-endian integer, components concatenated), serialize overwrites all Size bytes, and the encoding decodes to the same value; non-trivial = some non-zero byte"),
         Sub::random("transposes", 64, 40_000, 1_000_000, transposes,
